@@ -89,33 +89,112 @@ macro_rules! run_family {
 		let model_all = split_ranges(bytes);
 		if !case.normalized {
 			let mut model: VecDeque<(Vec<u8>, usize)> = model_all.iter().cloned().collect();
-			let mut it = p.segments();
-			for (k, c) in case.schedule.bytes().enumerate() {
-				let front = c == b'F';
-				let got = if front { it.next() } else { it.next_back() };
-				let want = if front { model.pop_front() } else { model.pop_back() };
-				let opn = if front { "next" } else { "next_back" };
+			// two routes to the same iterator: segments() and IntoIterator for &Path
+			let mut it = if case.schedule.starts_with('I') { p.into_iter() } else { p.segments() };
+			// one yielded item against one model item: text, and position when it is a slice of the path
+			let cmp = |k: usize, opn: &str, got: Option<&[u8]>, want: Option<(Vec<u8>, usize)>| -> Option<Violation> {
 				match (got, want) {
-					(None, None) => {}
-					(Some(g), Some((wt, wo))) => {
-						let gb = g.as_bytes();
+					(None, None) => None,
+					(Some(gb), Some((wt, wo))) => {
 						let off = (gb.as_ptr() as usize).wrapping_sub(base);
 						if gb != &wt[..] {
-							return Ok(Some(fail("item_text", k, opn, format!("step {} ({}) yielded the wrong segment", k, opn), text, Some(wt), Some(gb.to_vec()))));
+							return Some(fail("item_text", k, opn, format!("step {} ({}) yielded the wrong segment", k, opn), text, Some(wt), Some(gb.to_vec())));
 						}
 						// where a piece comes from is judged only when it is a slice of the path itself:
 						// a fixed constant with the right text (e.g. a static empty segment) is C20's business
 						let inside = off <= bytes.len() && off + gb.len() <= bytes.len();
 						if inside && off != wo {
-							return Ok(Some(fail("item_position", k, opn, format!("step {} ({}) yielded the right text from offset {} instead of {}", k, opn, off, wo), text, Some(wt), Some(gb.to_vec()))));
+							return Some(fail("item_position", k, opn, format!("step {} ({}) yielded the right text from offset {} instead of {}", k, opn, off, wo), text, Some(wt), Some(gb.to_vec())));
+						}
+						None
+					}
+					(Some(g), None) => Some(fail("extra_item", k, opn, format!("step {} ({}) yielded a segment after every segment had been yielded", k, opn), text, None, Some(g.to_vec()))),
+					(None, Some((wt, _))) => Some(fail("missing_item", k, opn, format!("step {} ({}) yielded None while segments remain", k, opn), text, Some(wt), None)),
+				}
+			};
+			for (k, c) in case.schedule.bytes().enumerate() {
+				match c {
+					b'I' => {}
+					b'F' | b'B' => {
+						let front = c == b'F';
+						let got = if front { it.next() } else { it.next_back() };
+						let want = if front { model.pop_front() } else { model.pop_back() };
+						let opn = if front { "next" } else { "next_back" };
+						if let Some(v) = cmp(k, opn, got.map(|g| g.as_bytes()), want) {
+							return Ok(Some(v));
 						}
 					}
-					(Some(g), None) => {
-						return Ok(Some(fail("extra_item", k, opn, format!("step {} ({}) yielded a segment after every segment had been yielded", k, opn), text, None, Some(g.as_bytes().to_vec()))));
+					// compound steps of the Iterator / DoubleEndedIterator interface: each is a fixed
+					// number of front or back steps, so it must agree with that many single steps
+					b'f' | b'g' => {
+						let n = if c == b'f' { 1 } else { 2 };
+						let got = it.nth(n);
+						for _ in 0..n {
+							model.pop_front();
+						}
+						let want = model.pop_front();
+						if let Some(v) = cmp(k, "nth", got.map(|g| g.as_bytes()), want) {
+							return Ok(Some(v));
+						}
 					}
-					(None, Some((wt, _))) => {
-						return Ok(Some(fail("missing_item", k, opn, format!("step {} ({}) yielded None while segments remain", k, opn), text, Some(wt), None)));
+					b'b' | b'c' => {
+						let n = if c == b'b' { 1 } else { 2 };
+						let got = it.nth_back(n);
+						for _ in 0..n {
+							model.pop_back();
+						}
+						let want = model.pop_back();
+						if let Some(v) = cmp(k, "nth_back", got.map(|g| g.as_bytes()), want) {
+							return Ok(Some(v));
+						}
 					}
+					// consuming steps: they take the iterator itself (not by_ref(), which would bypass an
+					// overriding implementation), so they end the schedule
+					b'C' => {
+						let got = it.count();
+						if got != model.len() {
+							return Ok(Some(fail("count", k, "count", format!("step {}: count() of the rest = {} but {} segments remain", k, got, model.len()), text, None, None)));
+						}
+						break;
+					}
+					b'L' => {
+						let got = it.last();
+						let want = model.back().cloned();
+						if let Some(v) = cmp(k, "last", got.map(|g| g.as_bytes()), want) {
+							return Ok(Some(v));
+						}
+						break;
+					}
+					b'A' | b'R' | b'O' => {
+						let fwd = c != b'R';
+						let opn = match c {
+							b'A' => "collect",
+							b'R' => "rev.collect",
+							_ => "fold",
+						};
+						let got: Vec<&[u8]> = match c {
+							b'A' => it.map(|g| g.as_bytes()).collect(),
+							b'R' => it.rev().map(|g| g.as_bytes()).collect(),
+							_ => it.fold(Vec::new(), |mut v, g| {
+								v.push(g.as_bytes());
+								v
+							}),
+						};
+						let mut i = 0;
+						loop {
+							let want = if fwd { model.pop_front() } else { model.pop_back() };
+							let g = got.get(i).copied();
+							if g.is_none() && want.is_none() {
+								break;
+							}
+							if let Some(v) = cmp(k, opn, g, want) {
+								return Ok(Some(v));
+							}
+							i += 1;
+						}
+						break;
+					}
+					_ => return Err(()),
 				}
 			}
 		} else {
@@ -157,12 +236,60 @@ macro_rules! run_family {
 			if it.len() != want_len {
 				return Ok(Some(fail("normalized_len_vs_split", 0, "len", format!("normalized_segments().len() = {} but removing dot segments from the '/'-split leaves {}", it.len(), want_len), text, None, None)));
 			}
+			let rng_of = |s: &[u8]| ((s.as_ptr() as usize).wrapping_sub(base), s.len());
 			for (k, c) in case.schedule.bytes().enumerate() {
-				let front = c == b'F';
-				let got = if front { it.next() } else { it.next_back() };
-				let want = if front { model.pop_front() } else { model.pop_back() };
-				let opn = if front { "normalized.next" } else { "normalized.next_back" };
-				let gotr = got.map(|s| ((s.as_bytes().as_ptr() as usize).wrapping_sub(base), s.as_bytes().len()));
+				let (opn, gotr, want): (&str, Option<(usize, usize)>, Option<(usize, usize)>) = match c {
+					b'I' => continue,
+					b'F' => ("normalized.next", it.next().map(|s| rng_of(s.as_bytes())), model.pop_front()),
+					b'B' => ("normalized.next_back", it.next_back().map(|s| rng_of(s.as_bytes())), model.pop_back()),
+					b'f' | b'g' => {
+						let n = if c == b'f' { 1 } else { 2 };
+						let g = it.nth(n).map(|s| rng_of(s.as_bytes()));
+						for _ in 0..n {
+							model.pop_front();
+						}
+						("normalized.nth", g, model.pop_front())
+					}
+					b'b' | b'c' => {
+						let n = if c == b'b' { 1 } else { 2 };
+						let g = it.nth_back(n).map(|s| rng_of(s.as_bytes()));
+						for _ in 0..n {
+							model.pop_back();
+						}
+						("normalized.nth_back", g, model.pop_back())
+					}
+					b'C' => {
+						let got = it.count();
+						if got != model.len() {
+							return Ok(Some(fail("normalized_count", k, "normalized.count", format!("step {}: count() of the rest = {} but {} items remain", k, got, model.len()), text, None, None)));
+						}
+						break;
+					}
+					b'L' => {
+						let g = it.last().map(|s| rng_of(s.as_bytes()));
+						let w = model.back().cloned();
+						if g != w {
+							return Ok(Some(fail("normalized_item", k, "normalized.last", format!("step {}: last() yielded {:?}, the forward pass has {:?} there", k, g, w), text, None, None)));
+						}
+						break;
+					}
+					b'A' | b'R' | b'O' => {
+						let got: Vec<(usize, usize)> = match c {
+							b'A' => it.map(|s| rng_of(s.as_bytes())).collect(),
+							b'R' => it.rev().map(|s| rng_of(s.as_bytes())).collect(),
+							_ => it.fold(Vec::new(), |mut v, s| {
+								v.push(rng_of(s.as_bytes()));
+								v
+							}),
+						};
+						let want: Vec<(usize, usize)> = if c != b'R' { model.drain(..).collect() } else { model.drain(..).rev().collect() };
+						if got != want {
+							return Ok(Some(fail("normalized_item", k, "normalized.collect", format!("step {}: the rest collected as {:?}, the forward pass has {:?}", k, got, want), text, None, None)));
+						}
+						break;
+					}
+					_ => return Err(()),
+				};
 				if gotr != want {
 					return Ok(Some(fail("normalized_item", k, opn, format!("step {} ({}) yielded {:?}, the forward pass has {:?} there", k, opn, gotr, want), text, None, None)));
 				}
@@ -294,7 +421,32 @@ pub fn gen_case(rng: &mut Rng, stats: &mut IterStats) -> IterCase {
 	let policy = rng.below(6);
 	let mut schedule = String::with_capacity(steps);
 	let bias = rng.range(1, 9);
+	// one case in three also schedules compound steps (nth, nth_back and, ending the
+	// schedule, the consuming count, last, collect, rev().collect, fold) and one in eight obtains the iterator through IntoIterator
+	let compound = rng.chance(1, 3);
+	let compound_rate = rng.range(1, 4);
+	if rng.chance(1, 8) {
+		schedule.push('I');
+		stats.hit("route_into_iter");
+	}
 	for k in 0..steps {
+		if compound && rng.chance(compound_rate, 8) {
+			let c = *rng.pick(&['f', 'g', 'b', 'c', 'f', 'b', 'f', 'b', 'C', 'L', 'A', 'R', 'O']);
+			schedule.push(c);
+			stats.hit(match c {
+				'f' | 'g' => "step_nth",
+				'b' | 'c' => "step_nth_back",
+				'C' => "step_count",
+				'L' => "step_last",
+				'A' => "step_collect",
+				'O' => "step_fold",
+				_ => "step_rev_collect",
+			});
+			if matches!(c, 'C' | 'L' | 'A' | 'R' | 'O') {
+				break;
+			}
+			continue;
+		}
 		let f = match policy {
 			0 => true,
 			1 => false,
@@ -306,7 +458,10 @@ pub fn gen_case(rng: &mut Rng, stats: &mut IterStats) -> IterCase {
 	}
 	let normalized = rng.chance(1, 4);
 	stats.hit(if normalized { "normalized_cases" } else { "segments_cases" });
-	if n <= 12 && !normalized {
+	if compound {
+		stats.hit("cases_with_compound_steps");
+	}
+	if n <= 12 && !normalized && schedule.len() >= n && schedule.bytes().all(|c| c == b'F' || c == b'B') {
 		let e = stats.schedules.entry(n).or_default();
 		if e.len() < 5000 {
 			e.insert(schedule[..n].to_string());
